@@ -52,9 +52,10 @@ def gen_spec(rng, max_jobs=6):
 
 def pick_faults(rng):
     x = rng.random()
+    again = rng.random() < 0.5  # the same named token is asked again (other total) through CounterToken.create
     for f, p in FAULT_CLASSES:
         if x < p:
-            return f
+            return dict(f, recreate=True) if again else f
         x -= p
     return {}
 
@@ -223,7 +224,7 @@ def run(ctx, prop, n_quick, n_thorough):
         for op, out, _ in oplog:
             ctx.count("ft_token_op", op[0] + ("" if out["ok"] else ":fail"))
         for e in r["events"]:
-            if e[0] in ("drop", "restart", "race", "racedel", "reclaim", "jobgone"):
+            if e[0] in ("drop", "restart", "race", "racedel", "reclaim", "jobgone", "recreate"):
                 ctx.count("ft_fault_event", e[0])
         ctx.count("ft_avail_above_total_at_end(F23)", any(P["avail"] > spec["total"] for P in r["final"]["procs"]))
         for p, key, what in r["viol"]:
